@@ -81,7 +81,10 @@ class LRUCacheStore(Store):
         _logger.debug(f"Fetching key {key}")
         res = self._store.fetch_blob(key)
         _logger.debug(f"Fetching key {key} completed: {type(res)}")
-        self._cache.put(key, res)
+        # An absent blob is also reported as None by the stores: only cache what the store
+        # really holds, otherwise the key is later reported present and served as None.
+        if res is not None or self._store.has_blob(key):
+            self._cache.put(key, res)
         return res
 
     def store_blob(self, key: PyHash, blob: Any, codec: Optional[ProtocolRef]) -> None:
